@@ -1,5 +1,6 @@
 import PycModel.Generator
 import PycModel.Properties.Tables
+import PycModel.Properties.TablesGen
 /-!
 # C07 — generated C re-parses to the same AST
 
